@@ -5,7 +5,8 @@ passes a baton, so the global order of operations is the generated sequence).
 Operations: assign / read ffi.errno (in-line FFI, API-module ffi, out-of-line
 ffi), call set_errno(v) / get_errno() / add_errno(k) through the four call
 paths (API wrapper, libffi function pointer from ffi.addressof, in-line dlopen,
-out-of-line dlopen), read an API-mode global (fetch-address path), and run a C
+out-of-line dlopen), read an API-mode global (fetch-address path; also a macro
+"global" whose address computation reads errno and leaves another value), and run a C
 function that sets errno, invokes a callback (ffi.callback of either FFI, or
 extern "Python") which reads and optionally assigns ffi.errno, and returns the
 errno it sees afterwards.
@@ -44,6 +45,13 @@ void set_errno(int v) { errno = v; }
 int get_errno(void) { return errno; }
 int add_errno(int k) { errno = (int)((unsigned)errno + (unsigned)k); return errno; }
 int run_cb(int (*cb)(int), int pre, int arg) { int r; errno = pre; r = cb(arg); (void)r; return errno; }
+/* a "global variable" that is really a macro calling a function: the code that computes
+   its address reads errno and leaves another value in it */
+static int c22_store = 77;
+int c22_seen = -1;
+int c22_next = 0;
+int *c22_get_mv(void) { c22_seen = errno; errno = c22_next; return &c22_store; }
+#define c22_mv (*c22_get_mv())
 '''
 CDEF = '''
 extern int c22_g;
@@ -64,7 +72,7 @@ def setup(ctx):
     tag = '%d_%d' % (os.getpid(), ctx.shard if ctx.shard >= 0 else 99)
     # API module (with extern "Python")
     fa = cffi.FFI()
-    fa.cdef(CDEF + 'extern "Python" int c22_extpy(int);')
+    fa.cdef(CDEF + 'extern "Python" int c22_extpy(int); extern int c22_mv; extern int c22_seen; extern int c22_next;')
     name = '_c22_api_%s' % tag
     fa.set_source(name, CSRC)
     mod = cc.build_api_module(fa, name, tmp)
@@ -103,7 +111,7 @@ def strategy(ctx):
     def op(draw, nthreads):
         t = draw(st.integers(0, nthreads - 1))
         k = draw(st.sampled_from(['set', 'get', 'c_set', 'c_get', 'c_add', 'glob', 'cb', 'set', 'get', 'c_set',
-                                  'set_bad']))
+                                  'set_bad', 'gfetch', 'gfetch']))
         if k == 'set':
             return [t, 'set', draw(st.integers(0, 2)), draw(val)]
         if k == 'set_bad':
@@ -119,6 +127,9 @@ def strategy(ctx):
             return [t, 'c_add', draw(st.integers(0, 3)), draw(st.integers(-1000, 1000))]
         if k == 'glob':
             return [t, 'glob']
+        if k == 'gfetch':
+            # macro global: [errno the accessor leaves, how: 0 read / 1 write / 2 addressof]
+            return [t, 'gfetch', draw(val), draw(st.integers(0, 2))]
         # callback: [path, cbkind, pre, assign-or-None]
         return [t, 'cb', draw(st.integers(0, 3)), draw(st.integers(0, 2)), draw(val),
                 draw(st.one_of(st.none(), val))]
@@ -172,6 +183,17 @@ class Worker(threading.Thread):
             return s['funcs']['add_errno'][op[2]](op[3])
         if k == 'glob':
             return s['api'].lib.c22_g
+        if k == 'gfetch':
+            lib, affi = s['api'].lib, s['api'].ffi
+            lib.c22_next = op[2]
+            if op[3] == 0:
+                v = lib.c22_mv
+            elif op[3] == 1:
+                lib.c22_mv = 77
+                v = 77
+            else:
+                v = affi.addressof(lib, 'c22_mv')[0]
+            return [lib.c22_seen, v]
         if k == 'cb':
             _, _, path, cbkind, pre, assign = op
             seen = []
@@ -251,6 +273,15 @@ def prop(case, ctx):
             elif k == 'glob':
                 if res != 1234:
                     ctx.fail('API global read %r' % (res,), step=idx)
+            elif k == 'gfetch':
+                seen, v = res
+                if v != 77:
+                    ctx.fail('macro global read %r' % (v,), step=idx)
+                if seen != E:
+                    ctx.fail('thread %d: the C code computing the address of an API-mode global saw errno %r, '
+                             'expected %r' % (t, seen, E), step=idx, op=op)
+                model[t] = op[2]
+                changes = True
             elif k == 'cb':
                 _, _, path, cbkind, pre, assign = op
                 r, seen = res
